@@ -58,6 +58,8 @@ def run_stream(make):
 def search_lazy_parallel_map(rep):
     from lazy_dataset.parallel_utils import lazy_parallel_map
     cases = 0
+    listed = None       # a mismatch of the listed finding F19 (examples lost before a failing SOURCE element): reported
+    #                     only when nothing else fails, so that it cannot mask a different violation
     for n, b, w in itertools.product((0, 1, 3, 6), (1, 2, 4), (1, 2)):
         if b < w:
             continue
@@ -71,13 +73,34 @@ def search_lazy_parallel_map(rep):
                                                        backend='t'))
             exp = expected_stream(n, src_bad, fn_bad)
             if got != exp:
-                return {'reproduced': True, 'cases_searched': cases,
-                        'scenario': 'lazy_parallel_map(f, source(n=%d, raises at %s), buffer_size=%d, max_workers=%d, '
-                                    "backend='t'), f raises at %s" % (n, src_bad, b, w, fn_bad),
-                        'mismatches': [{'clause': 'stream', 'observed': repr(got), 'expected': repr(exp)}],
-                        'class': 'lazy_parallel_map'}
+                r_ = {'reproduced': True, 'cases_searched': cases,
+                      'scenario': 'lazy_parallel_map(f, source(n=%d, raises at %s), buffer_size=%d, max_workers=%d, '
+                                  "backend='t'), f raises at %s" % (n, src_bad, b, w, fn_bad),
+                      'mismatches': [{'clause': 'stream', 'observed': repr(got), 'expected': repr(exp)}],
+                      'class': 'lazy_parallel_map'}
+                if src_bad is not None and got[1] == 'SrcBoom' and got[0] == exp[0][:len(got[0])]:
+                    listed = listed or r_
+                    continue
+                return r_
+    for n, b, w in itertools.product((1, 3, 6), (1, 2, 4), (1, 2)):
+        if b < w:
+            continue
+        for at in range(n):
+            cases += 1
+
+            def g(x, at=at):
+                return ValueError(x) if x == at else x * 10
+            got = run_stream(lambda: lazy_parallel_map(g, iter(range(n)), buffer_size=b, max_workers=w, backend='t'))
+            ok = got[1] is None and len(got[0]) == n and all((isinstance(a, ValueError) if i == at else a == i * 10) for i, a in enumerate(got[0]))
+            if not ok:
+                return {'reproduced': True, 'cases_searched': cases, 'class': 'lazy_parallel_map',
+                        'scenario': 'lazy_parallel_map(g, range(%d), buffer_size=%d, max_workers=%d), g RETURNS a ValueError instance at %d' % (n, b, w, at),
+                        'mismatches': [{'clause': 'stream', 'observed': repr(got), 'expected': 'all %d results, no exception' % n}]}
+    if listed is not None:
+        listed['cases_searched'] = cases
+        return listed
     return {'reproduced': False, 'cases_searched': cases, 'class': 'lazy_parallel_map',
-            'bound': 'n in {0,1,3,6}, buffer in {1,2,4}, workers in {1,2}, thread backend, every single failing position'}
+            'bound': 'n in {0,1,3,6}, buffer in {1,2,4}, workers in {1,2}, thread backend, every single failing position; exception instances as results'}
 
 
 def search_single_thread_prefetch(rep):
@@ -94,8 +117,21 @@ def search_single_thread_prefetch(rep):
                         'scenario': 'single_thread_prefetch(source(n=%d, raises %s at %s), buffer_size=%d)'
                                     % (n, exc.__name__, src_bad, b),
                         'mismatches': [{'clause': 'stream', 'observed': repr(got), 'expected': repr(exp)}]}
+    # examples that ARE exception instances are ordinary values (signalling must be out of band)
+    for n, b in itertools.product((1, 3, 6), (1, 2, 4)):
+        for at in range(n):
+            for mk in (ValueError, StopIteration, KeyboardInterrupt, SrcBoom):
+                cases += 1
+                vals = [mk(i) if i == at else i for i in range(n)]
+                got = run_stream(lambda: single_thread_prefetch(iter(vals), b))
+                ok = got[1] is None and len(got[0]) == n and all(a is v for a, v in zip(got[0], vals))
+                if not ok:
+                    return {'reproduced': True, 'cases_searched': cases, 'class': 'single_thread_prefetch',
+                            'scenario': 'single_thread_prefetch over %d examples, example %d is the value %s(%d), buffer_size=%d'
+                                        % (n, at, mk.__name__, at, b),
+                            'mismatches': [{'clause': 'stream', 'observed': repr(got), 'expected': 'all %d examples, no exception' % n}]}
     return {'reproduced': False, 'cases_searched': cases, 'class': 'single_thread_prefetch',
-            'bound': 'n in {0,1,3,6}, buffer in {1,2,4}, every failing position, Exception and BaseException'}
+            'bound': 'n in {0,1,3,6}, buffer in {1,2,4}, every failing position, Exception and BaseException; exception instances as values'}
 
 
 def _with_watchdog(fn, timeout=8.0):
@@ -124,16 +160,24 @@ def search_readahead(make, label, bound_of):
         log = []
         it = iter(make(n, b, log))
         worst = 0
+        worst_started = 0
         delivered = 0
         try:
             for _ in range(min(n, 6)):
                 next(it)
                 delivered += 1
                 time.sleep(0.15)
-                pulled = len(log)
+                pulled = len([e for e in log if e[0] == 'pull'])
+                started = len([e for e in log if e[0] == 'start'])
                 worst = max(worst, pulled - delivered)
+                worst_started = max(worst_started, started - delivered)
         finally:
             st, _ = _with_watchdog(lambda: it.close())
+        if worst_started > b:
+            return {'reproduced': True, 'cases_searched': cases, 'class': label,
+                    'scenario': '%s with n=%d buffer_size=%d, consumer pausing 0.15 s after each item' % (label, n, b),
+                    'mismatches': [{'clause': 'read-ahead', 'observed': 'function applications started beyond those delivered = %d' % worst_started,
+                                    'expected': '<= buffer_size = %d' % b}]}
         if worst > bound_of(b):
             return {'reproduced': True, 'cases_searched': cases, 'class': label,
                     'scenario': '%s with n=%d buffer_size=%d, consumer pausing 0.15 s after each item' % (label, n, b),
@@ -141,6 +185,38 @@ def search_readahead(make, label, bound_of):
                                     'expected': '<= %d' % bound_of(b)}]}
     return {'reproduced': False, 'cases_searched': cases, 'class': label,
             'bound': 'n in {8,20}, buffer in {1,2,3,5}, first 6 items, 0.15 s settle time'}
+
+
+def search_started_ahead(label='lazy_parallel_map'):
+    """C07, second bound: at the moment a function application starts, the number of applications started so far minus the
+    examples already delivered is at most buffer_size -- measured inside the mapped function, with slow examples at the
+    head of the buffer and a consumer that reads as fast as it can"""
+    from lazy_dataset.parallel_utils import lazy_parallel_map
+    cases = 0
+    for n, b, w in itertools.product((12,), (1, 2, 3, 4, 6), (1, 2, 3)):
+        if b < w:
+            continue
+        cases += 1
+        lock = threading.Lock()
+        state = {'started': 0, 'delivered': 0, 'worst': 0}
+
+        def f(x):
+            with lock:
+                state['started'] += 1
+                state['worst'] = max(state['worst'], state['started'] - state['delivered'])
+            if x % 4 == 0:
+                time.sleep(0.12)
+            return x
+        for _ in lazy_parallel_map(f, iter(range(n)), buffer_size=b, max_workers=w, backend='t'):
+            with lock:
+                state['delivered'] += 1
+        if state['worst'] > b:
+            return {'reproduced': True, 'cases_searched': cases, 'class': label,
+                    'scenario': 'lazy_parallel_map over %d examples (every 4th slow), buffer_size=%d, max_workers=%d, fast consumer' % (n, b, w),
+                    'mismatches': [{'clause': 'read-ahead', 'observed': 'applications started beyond those delivered: %d' % state['worst'],
+                                    'expected': '<= buffer_size = %d' % b}]}
+    return {'reproduced': False, 'cases_searched': cases, 'class': label,
+            'bound': 'n=12, buffer in {1,2,3,4,6}, workers 1..3, slow head examples'}
 
 
 def search_stop(make, label):
@@ -167,6 +243,48 @@ def search_stop(make, label):
                                         'expected': 'returns, threads exited'}]}
     return {'reproduced': False, 'cases_searched': cases, 'class': label,
             'bound': 'n in {0,1,3,6}, buffer in {1,2,4}, every stop point'}
+
+
+def _slow_identity(x):
+    time.sleep(0.25)
+    return x
+
+
+def search_stop_processes():
+    """C05 for the process pools: after close() returned no worker process and no helper thread of the pool is alive"""
+    import multiprocessing
+    from lazy_dataset.parallel_utils import lazy_parallel_map
+    cases = 0
+    for backend in ('concurrent_mp', 'mp'):
+        for k in (1, 2):
+            cases += 1
+            base = threading.active_count()
+
+            def run():
+                it = iter(lazy_parallel_map(_slow_identity, iter(range(6)), buffer_size=3, max_workers=2, backend=backend))
+                for _ in range(k):
+                    next(it)
+                it.close()
+                return (len(multiprocessing.active_children()), threading.active_count())
+            try:
+                st, r = _with_watchdog(run, timeout=30.0)
+            except Exception:      # noqa
+                continue
+            if st == 'hang':
+                return {'reproduced': True, 'cases_searched': cases, 'class': 'lazy_parallel_map',
+                        'scenario': "lazy_parallel_map(slow f, range(6), buffer_size=3, max_workers=2, backend=%r), close() after %d items" % (backend, k),
+                        'mismatches': [{'clause': 'stop', 'observed': 'hang', 'expected': 'returns'}]}
+            if isinstance(r, tuple) and r and r[0] == 'exc':
+                continue        # the backend is not usable here (e.g. pathos missing)
+            children, threads = r
+            if children > 0 or threads > base + 1:
+                return {'reproduced': True, 'cases_searched': cases, 'class': 'lazy_parallel_map',
+                        'scenario': "lazy_parallel_map(slow f, range(6), buffer_size=3, max_workers=2, backend=%r), close() after %d items" % (backend, k),
+                        'mismatches': [{'clause': 'stop', 'observed': 'after close(): %d worker processes and %d extra threads alive' % (children, threads - base - 1),
+                                        'expected': 'no process, no thread of the pool left'}]}
+            for p_ in multiprocessing.active_children():
+                p_.join(2)
+    return {'reproduced': False, 'cases_searched': cases, 'class': 'lazy_parallel_map', 'bound': 'concurrent_mp and mp backends, stop after 1 and 2 of 6 slow examples'}
 
 
 def _settle(base, timeout=2.0):
@@ -198,18 +316,37 @@ def search_lazy_parallel_map_prop(rep):
     def f(x):
         return x * 10
     if prop == 'C07':
-        return search_readahead(lambda n, b, log: lazy_parallel_map(f, _source(n, log=log), buffer_size=b,
-                                                                    max_workers=min(2, b), backend='t'),
-                                'lazy_parallel_map', lambda b: b + 2)
+        def mk(n, b, log):
+            def fl(x):
+                log.append(('start', x))
+                return x * 10
+            return lazy_parallel_map(fl, _source(n, log=log), buffer_size=b, max_workers=min(2, b), backend='t')
+        r = search_started_ahead()
+        if r['reproduced']:
+            return r
+        return search_readahead(mk, 'lazy_parallel_map', lambda b: b + 2)
     if prop == 'C05':
         r = search_stop(lambda n, b, log: lazy_parallel_map(f, _source(n), buffer_size=b, max_workers=1, backend='t'),
                         'lazy_parallel_map')
         if r['reproduced']:
             return r
+        r = search_stop_processes()
+        if r['reproduced']:
+            return r
     return search_lazy_parallel_map(rep)
 
 
-SEARCHES = {'lazy_parallel_map': search_lazy_parallel_map_prop,
+def _scenario_search(cls):
+    def run(rep):
+        from harness import scenarios
+        c, f = scenarios.run_class(cls)
+        if f:
+            return {'reproduced': True, 'cases_searched': c, 'class': cls, 'scenario': f[0]['scenario'], 'mismatches': f[0]['mismatches']}
+        return {'reproduced': False, 'cases_searched': c, 'class': cls}
+    return run
+
+
+SEARCHES = {'from_dataset': _scenario_search('FromDataset'), 'lazy_parallel_map': search_lazy_parallel_map_prop,
             'single_thread_prefetch': search_single_thread_prefetch_prop}
 
 
@@ -241,7 +378,7 @@ for _k in ('DynamicTimeSeriesBucket', 'DynamicBucket', 'DynamicBucketDataset'):
 
 
 PROP_SEARCH = {'C09': 'c09_native', 'C10': 'cache_histories', 'C14': 'catch_epochs', 'C15': 'split_exhaustive',
-               'C18': 'sort_group', 'C20': 'c20_native', 'C19': 'database', 'C02': 'c02_native'}
+               'C18': 'sort_group', 'C20': 'c20_native', 'C19': 'database', 'C02': 'c02_native', 'C04': 'parallel_equals_sequential', 'C11': 'diskcache_lifecycles', 'C13': 'parallel_equals_sequential'}
 
 
 def _prop_search(rep):
